@@ -6,6 +6,7 @@ package sugardb
 
 import (
 	"strconv"
+	"strings"
 	"time"
 
 	"github.com/echovault/sugardb/internal/constants"
@@ -289,3 +290,48 @@ func verifWriteOverExpired(tag string) {
 	vr.Assert(s.memUsed == 0, tag+".write_over_expired.empty_is_zero")
 	vr.Reach("end")
 }
+
+// ---- a write that is refused for lack of memory leaves the figure alone ----
+//
+// noeviction with a symbolic limit that the current usage may or may not have passed (the limit is
+// switched on after the dataset was loaded, as when usage crossed it with one large value). One write
+// (a keyspace call or a command) to an existing key of any kind or to a fresh key, alone or in a batch
+// of two: whether it is admitted or refused, the figure afterwards is that of the dataset afterwards,
+// and an empty dataset reports zero.
+func verifRefusedWriteFigure(tag string) {
+	s := verifServer()
+	k, k2 := vr.Tok("k"), vr.Tok("k2")
+	vr.Assume(k != k2)
+	if vr.Choose("k_exists", 2) == 1 {
+		verifPreset(s, 0, k, c19Value("old", vr.Choose("old_kind", 3)))
+	}
+	verifPreset(s, 0, k2, c19Value("other", 0))
+	limit := vr.Int("limit")
+	vr.Assume(limit >= 1 && limit <= 1<<20)
+	s.config.MaxMemory = uint64(limit)
+	s.config.EvictionPolicy = constants.NoEviction
+	var refused bool
+	switch vr.Choose("write", 4) {
+	case 0:
+		refused = s.setValues(verifCtx(0), map[string]interface{}{k: vr.Tok("w")}) != nil
+	case 1:
+		refused = s.setValues(verifCtx(0), map[string]interface{}{k: vr.Tok("w"), k2: vr.Tok("w2")}) != nil
+	case 2:
+		refused = strings.HasPrefix(c05Run(s, "SET", k, vr.Tok("w")), "ERR")
+	case 3:
+		refused = strings.HasPrefix(c05Run(s, "APPEND", k, vr.Tok("w")), "ERR")
+	}
+	vr.Quiesce()
+	if refused {
+		vr.Assert(s.memUsed == c19Fresh(s), tag+".refused_write.figure_is_still_that_of_the_dataset")
+	} else {
+		vr.Assert(s.memUsed == c19Fresh(s), tag+".admitted_write.figure_is_that_of_the_new_dataset")
+	}
+	s.config.MaxMemory = 0
+	s.Flush(-1)
+	vr.Assert(s.memUsed == 0, tag+".refused_write.empty_is_zero")
+	vr.Reach("end")
+}
+
+func Verif_C19_RefusedWriteLeavesFigureAlone() { verifRefusedWriteFigure("C19") }
+func Verif_C08_RefusedWriteLeavesFigureAlone() { verifRefusedWriteFigure("C08") }
